@@ -49,6 +49,9 @@ TEXT.update({
     "C19": ("fault enumeration of panicking destructors with a destruction ledger, exposure checks (join / lookup / slice views) and a re-synchronised model for continued use",
             "The k-th in-world destructor call of the operation panics once (instrumented Drop); after catch_unwind the ledger must show no value destroyed twice, everything the world still exposes must be ledger-live, the world must keep behaving like a map re-synchronised from what it exposes, and its teardown must not destroy anything twice. Leaks after a panic are allowed, as the property says.",
             "3.C19"),
+    "C10": ("history monitor at the client boundary (pairwise distinctness, per-call postconditions, set and exactly-once equations after maintain) over scheduler-driven and free-running interleavings; TSan and Miri on the stress mode",
+            "Every thread records (call, result); handles must be pairwise distinct and alive for their creator at once, deletions of live handles must succeed, concurrent joins must see every entity alive for the joining thread; after maintain the alive set must equal initial + created - delete-requested, every queued action must have run exactly once, and the allocator hook invariants must hold. Interleavings between the atomic steps of allocate_atomic / kill_atomic / the CAS loops are driven by a seeded token-passing scheduler through the verif-hooks yield points (sampled, counted, not exhaustive); free-running stress, ThreadSanitizer and Miri cover dependency internals and weak-memory behaviours on a best-effort basis.",
+            "3.C10"),
     "C11": ("overlap monitor (per-storage reader/writer counters, logical-clock intervals, torn-write tokens) inside generated systems + borrow-state probe of SystemData declarations",
             "Random system graphs are dispatched on pools of 1-32 threads; each system updates atomic reader/writer counters for exactly the storages it holds, writes and re-validates unique tokens, and stamps enter/exit from a logical clock; after each dispatch exactly-once, conflict-pair disjointness, dependency, barrier and thread-local order are checked, panics escaping dispatch are violations, and for each storage handle type the real borrow state after fetch() is compared with reads()/writes(). Thorough adds ThreadSanitizer.",
             "3.C11"),
